@@ -38,6 +38,12 @@ func runC06(r *an.Run) {
 	// what is echoed for an unmatched file is what was read from it: the bytes kept until the echo are not a
 	// window into a buffer that is rewound and filled again for another file
 	noTransientBufferRetained(r, "R6-kept-bytes-are-not-a-window-into-a-reused-buffer")
+	// a file in which nothing is an instance of the pattern is not reported as matched: a list pattern whose
+	// last element is fixed does not accept a list that goes on after it
+	c04AnchoringAndConsumption(r)
+	relabel(r, "R3-anchoring-and-consumption", "R7-a-longer-list-is-not-a-match")
+	relabel(r, "R4-recorded-run-is-skipped-run", "R7-a-longer-list-is-not-a-match")
+	relabel(r, "R5-search-completeness", "R7-a-longer-list-is-not-a-match")
 }
 
 func c06NoEffectPath(r *an.Run, m *runModel) {
